@@ -22,6 +22,8 @@ Failed(r) ==
             LET want == T!LEInt(r.workchain, 4, TRUE) \o T!LEInt(r.shard, 8, TRUE) \o T!LEInt(r.seqno, 4, TRUE) IN
             Clause("to_bytes_layout", Has(r, "bytes") /\ r.bytes = RevSeq(T!LEInt(r.workchain, 4, TRUE)) \o RevSeq(T!LEInt(r.shard, 8, TRUE))
                                                                     \o RevSeq(T!LEInt(r.seqno, 4, TRUE)) \o r.root \o r.file)
+            \cup Clause("from_bytes_fields", Has(r, "from_bytes") =>
+                        r.from_bytes = [workchain |-> r.workchain, shard |-> r.shard, seqno |-> r.seqno, root |-> r.root, file |-> r.file])
             \cup Clause("bytes_roundtrip", r.rt_bytes = 1) \cup Clause("dict_roundtrip", r.rt_dict = 1)
             \cup Clause("hashable", r.hashable = 1) \cup Clause("equal_ids_collide", r.collide = 1)
 TInit == KitInit
